@@ -178,11 +178,11 @@ func randHistoryOp(r *rng, w *world) string {
 	pick := func() int { return live[r.intn(len(live))] }
 	t := pick()
 	sh := []int(w.ts[t].Shape())
-	// a scalar-shaped VIEW over a longer storage window (born from the slicing findings F2/F43): the
+	// a one-element VIEW (scalar-shaped or shape (1,..,1)) over a longer storage window (born from the slicing findings F2/F43): the
 	// one-element special cases of the engine write through it in ways the model only approximates
 	// (known-finding zone F49/F52); such tensors are not used as operands of elementwise operations
 	scalarWide := func(x *tensor.Dense) bool {
-		return x.IsScalar() && x.MemSize() > x.Dtype().Size()
+		return (x.IsScalar() || x.Shape().TotalSize() == 1) && x.MemSize() > x.Dtype().Size()
 	}
 	sameShape := func(i int) []int {
 		var out []int
